@@ -180,6 +180,12 @@ class Run:
     def step(self, op):
         z = self.z
         c = op[0]
+        if c == 11:
+            try:
+                z.reader(id=op[1], serial=op[2]).rollback()
+            except ValueError:
+                return Err(2, "ValueError")
+            return Err(199, "reader(id=, serial=) accepted")
         if c in (0, 1, 2):
             try:
                 if c == 0:
@@ -346,7 +352,7 @@ def gen_history(rng, length):
         elif r < 0.93:
             ops.append(gen_policy(rng, ncommit))
         elif r < 0.96:
-            ops.append(rng.choice([[7], [8], [5, 2, 1], [6, 2], [4, 0]]))  # possibly misplaced
+            ops.append(rng.choice([[7], [8], [5, 2, 1], [6, 2], [4, 0], [11, 1, 1]]))  # possibly misplaced
         else:
             ops.append([3, rng.randint(0, opened + 2)])
     return ops
